@@ -174,12 +174,24 @@ fn mesh_scenario(w: &mut World, ctx: &RunCtx, states: &mut Vec<u64>) -> Result<(
     }
     let diam = diameter(n, &edges);
     // staggered starts
+    // one node may come up only after the handshakes that were waiting for it have given up (240 s): the dial is
+    // repeated by the reconnect timer (back-off below 64 s at that point)
+    let very_late = if w.ch.chance("very_late_start", 150) { Some(w.ch.choose("very_late_node", n as u32) as usize) } else { None };
+    let mut last_start = 0u64;
     for i in 0..n {
-        let delay = if w.ch.chance("late_start", 300) { w.ch.choose("start_delay_ms", 30_000) as u64 } else { 0 };
+        let delay = if very_late == Some(i) {
+            w.count("c14_node_started_after_handshake_horizon");
+            250_000 + w.ch.choose("very_late_ms", 400_000) as u64
+        } else if w.ch.chance("late_start", 300) {
+            w.ch.choose("start_delay_ms", 30_000) as u64
+        } else {
+            0
+        };
+        last_start = last_start.max(delay);
         w.schedule_action(delay, 1, i as u64);
     }
     let interval_s = 90u64; // default peer timeout 300: min(300/2-60, ...) = 90
-    let bound_s = if use_nat { 10 * interval_s } else { (diam as u64 + 2) * interval_s } + 30 + 30;
+    let bound_s = if use_nat { 10 * interval_s } else { (diam as u64 + 2) * interval_s } + 30 + 30 + if very_late.is_some() { last_start / 1000 + 130 } else { 0 };
     let deadline = bound_s * 1000;
     let pairs = mesh::all_pairs(n);
     let mut meshed_at = None;
